@@ -34,6 +34,10 @@ namespace {
 enum { NT = 16, NV = 16 };
 const fg::Ty kTypes[NT] = {fg::T_INT, fg::T_UINT, fg::T_LLONG, fg::T_CHAR, fg::T_CHAR32, fg::T_BOOL, fg::T_DOUBLE, fg::T_CSTR, fg::T_STSTRING, fg::T_STDSTRING,
                            fg::T_WCSTR, fg::T_U16STRING, fg::T_U32CSTR, fg::T_FLOAT, fg::T_NULLCSTR, fg::T_WCHAR};
+// second page of argument types (selected by the upper part of the count byte): views and STL strings of every width that are
+// NOT followed by a terminator in memory (exact-size heap blocks), char8_t text, and the remaining integer widths
+const fg::Ty kTypes2[NT] = {fg::T_SV, fg::T_WSV, fg::T_U16SV, fg::T_U32SV, fg::T_U8SV, fg::T_U8CSTR, fg::T_U8STRING, fg::T_WSTRING, fg::T_U32STRING, fg::T_U16CSTR,
+                            fg::T_SCHAR, fg::T_USHORT, fg::T_LONG, fg::T_ULLONG, fg::T_CHAR16, fg::T_CHAR8};
 const long long kInts[NV] = {0, 42, -1, 1, 255, -255, 'A', 0x7F, 0x80, 0x10FFFF, 0x110000, LLONG_MIN, LLONG_MAX, 0xD800, 0x20AC, 1234567};
 double dbl(int i) {
     static const double d[NV] = {0.0, 1.5, -2.25, 1e100, 1e308, -1e100, 1e-300, 5e-324, 0, 0, 0, 123456789.125, 0.1, 1e15, 1e16, -0.0};
@@ -47,8 +51,8 @@ const char *const kTexts[NV] = {"", "str", "x", "hello world", "\xC3\xA9", "\xE2
 
 struct ArgList { std::vector<fg::Value> v; std::vector<ref::Arg> r; bool bad_wide = false, has_double = false; };
 
-void decode_arg(uint8_t b, fg::Value &v, bool &bad_wide, bool &has_double) {
-    fg::Ty t = kTypes[b % NT]; int vi = (b / NT) % NV;
+void decode_arg(uint8_t b, fg::Value &v, bool &bad_wide, bool &has_double, int page = 0) {
+    fg::Ty t = (page ? kTypes2 : kTypes)[b % NT]; int vi = (b / NT) % NV;
     if (fg::ty_is_int(t)) v.set_int(t, (unsigned long long)kInts[vi]);
     else if (t == fg::T_BOOL) v.set_bool(vi & 1);
     else if (t == fg::T_DOUBLE || t == fg::T_FLOAT) { v.set_double(t, dbl(vi)); has_double = true; }
@@ -59,7 +63,7 @@ void decode_arg(uint8_t b, fg::Value &v, bool &bad_wide, bool &has_double) {
         bool valid = ref::utf8_decode_strict(raw, &cps);
         if (fg::ty_is_wide_text(t)) {
             if (!valid) {
-                if (t == fg::T_U16STRING) { std::u16string u = vi == 13 ? std::u16string(1, (char16_t)0xD800) : vi == 14 ? std::u16string(u"ab\xDC00") : std::u16string(u"\xD800x"); v.set_units16(t, u); bad_wide = true; return; }
+                if (t == fg::T_U16STRING || t == fg::T_U16SV || t == fg::T_U16CSTR) { std::u16string u = vi == 13 ? std::u16string(1, (char16_t)0xD800) : vi == 14 ? std::u16string(u"ab\xDC00") : std::u16string(u"\xD800x"); v.set_units16(t, u); bad_wide = true; return; }
                 cps.assign({'w', 0xE9});
             }
             v.set_text(t, cps);
@@ -68,9 +72,11 @@ void decode_arg(uint8_t b, fg::Value &v, bool &bad_wide, bool &has_double) {
 }
 // header: one byte count (mod 5), then one byte per argument
 void decode_args(verif::Reader &r, ArgList &a) {
-    size_t n = r.u8() % 5;
+    uint8_t cb = r.u8();
+    size_t n = cb % 5;
+    int pages = (cb / 5) % 4;          // 0: first page only (the original table), 1: second page only, 2/3: alternate per argument
     a.v.resize(n);
-    for (size_t i = 0; i < n; i++) { decode_arg(r.u8(), a.v[i], a.bad_wide, a.has_double); a.r.push_back(a.v[i].to_ref()); }
+    for (size_t i = 0; i < n; i++) { int page = pages == 0 ? 0 : pages == 1 ? 1 : (int)((i + pages) & 1); decode_arg(r.u8(), a.v[i], a.bad_wide, a.has_double, page); a.r.push_back(a.v[i].to_ref()); }
 }
 uint8_t ab(int type_index, int value_index) { return (uint8_t)(value_index * NT + type_index); }
 
@@ -195,7 +201,7 @@ struct MemFile {           // FILE* whose content can be read back; released on 
     ~MemFile() { if (fp) fclose(fp); free(buf); }
 };
 
-struct Verdict { std::string why; Outcome def, raw, file, stream; ref::Result want; };
+struct Verdict { std::string why; Outcome def, raw, file, stream, full; ref::Result want; };
 
 // Runs the four calls and applies the oracle.  `fmt` is handed over as an exact-size NUL-terminated heap copy
 // (or as a null pointer when `null_format`).
@@ -208,6 +214,9 @@ void run_and_judge(const std::string &fmt, bool null_format, const ArgList &a, V
     vd.file = observe([&] { MemFile m; if (!m.fp) return std::string(); fg::call_n(a.v, [&](auto... x) { ST::printf(m.fp, fs, x...); return 0; }); return m.finish(); });
     vd.stream = observe([&] { std::ostringstream os; fg::call_n(a.v, [&](auto... x) { ST::writef(os, fs, x...); return 0; }); return os.str(); });
 
+    // a FILE* that accepts nothing (unbuffered /dev/full): the call must end the same way, not spin on the failed writes
+    vd.full = observe([&] { FILE *fp = fopen("/dev/full", "w"); if (!fp) return std::string("<no /dev/full>"); setvbuf(fp, nullptr, _IONBF, 0);
+                            try { fg::call_n(a.v, [&](auto... x) { ST::printf(fp, fs, x...); return 0; }); } catch (...) { fclose(fp); throw; } fclose(fp); return std::string(); });
     const Outcome *all[4] = {&vd.def, &vd.raw, &vd.file, &vd.stream};
     static const char *const sink[4] = {"ST::format", "ST::format(assume_valid)", "ST::printf(FILE*)", "ST::writef(ostringstream)"};
     for (int i = 0; i < 4 && vd.why.empty(); i++) {
@@ -240,6 +249,8 @@ void run_and_judge(const std::string &fmt, bool null_format, const ArgList &a, V
     // the sinks agree on the kind of outcome (the validating call may add unicode_error for the finished result)
     if (vd.raw.kind != vd.file.kind || vd.raw.kind != vd.stream.kind)
         vd.why = std::string("sinks disagree on the outcome: string ") + kname(vd.raw.kind) + ", FILE* " + kname(vd.file.kind) + ", ostream " + kname(vd.stream.kind);
+    else if (vd.full.kind != vd.file.kind)
+        vd.why = std::string("ST::printf to a FILE* that rejects every write ends with ") + kname(vd.full.kind) + " (" + vd.full.what + "), to a working FILE* with " + kname(vd.file.kind);
     else if (vd.def.kind != vd.raw.kind && !(vd.def.kind == K_UNICODE_ERROR && vd.raw.kind == K_OUTPUT))
         vd.why = std::string("ST::format with default validation ends with ") + kname(vd.def.kind) + " but with assume_valid with " + kname(vd.raw.kind);
 }
